@@ -125,6 +125,10 @@ func (in *Interp) eval(e ast.Expr, st *State) []ev {
 			}
 			return one(st, Sym{Name: name})
 		case *types.Func:
+			if in.funcSyms == nil {
+				in.funcSyms = map[string]*types.Func{}
+			}
+			in.funcSyms["func:"+ob.FullName()] = ob
 			return one(st, Sym{Name: "func:" + ob.FullName()})
 		case *types.Builtin:
 			return one(st, Sym{Name: "builtin:" + ob.Name()})
@@ -917,6 +921,14 @@ func (in *Interp) call(x *ast.CallExpr, st *State) []ev {
 			if res := in.eval(fexpr, st); len(res) == 1 && res[0].st == st {
 				if sym, ok := res[0].v.(Sym); ok && sym.Name != v.Name() && plainIdentRE.MatchString(sym.Name) {
 					callee = "value:" + sym.Name
+				} else if ok {
+					// … or it holds a named function: the call is a call of that function
+					if fo := in.funcSyms[sym.Name]; fo != nil {
+						calleeObj = fo
+						if in.Prog != nil {
+							callee = in.Prog.QNameAny(fo)
+						}
+					}
 				}
 			}
 		}
